@@ -8,7 +8,13 @@ pub enum Ty {
     Vec { n: u8, s: String },
     Mat { c: u8, r: u8, s: String },
     Atomic { s: String },
-    Array { n: u32, e: Box<Ty> },
+    Array {
+        n: u32,
+        e: Box<Ty>,
+        /// name of an `override` giving the length instead of `n` (workgroup variables only)
+        #[serde(default, skip_serializing_if = "Option::is_none")]
+        len: Option<String>,
+    },
     Rtarray { e: Box<Ty> },
     Struct { name: String },
     Sampler { cmp: bool },
@@ -162,6 +168,9 @@ pub struct ConstDef {
     /// the value the harness computed independently for plain literals ("f32:<bits>", "i32:<dec>", ...)
     #[serde(default, skip_serializing_if = "Option::is_none")]
     pub expect: Option<String>,
+    /// the constant is not of scalar type (never exported)
+    #[serde(default, skip_serializing_if = "is_false")]
+    pub nonscalar: bool,
 }
 
 #[derive(Deserialize, Serialize, Clone, Debug)]
@@ -192,6 +201,15 @@ pub struct Shader {
     /// raw text placed in a leading block comment (C16)
     #[serde(default, skip_serializing_if = "Option::is_none")]
     pub comment: Option<String>,
+    /// `alias Name = ty;` declarations: concrete syntax only, every occurrence of `ty` in a member or variable type is spelled `Name`
+    #[serde(default, skip_serializing_if = "Vec::is_empty")]
+    pub aliases: Vec<AliasDef>,
+}
+
+#[derive(Deserialize, Serialize, Clone, Debug, PartialEq)]
+pub struct AliasDef {
+    pub name: String,
+    pub ty: Ty,
 }
 
 #[derive(Deserialize, Serialize, Clone, Debug, PartialEq)]
